@@ -10,6 +10,7 @@
      l a            -> <bytes of to_string_lossy a>
      u x            -> 1 | 0                                           (is x valid UTF-8)
      sp             -> SPECIAL_CHARS
+     pqs a          -> <path_norm a> | <quote (path_norm a)> | <split of that>      (Path::quote)
      b x            -> ok w1 w2 .. | none                              (bash model; model only)
    C10 commands are further below. *)
 let bytes_of_field f = List.map n_of_int (ints_of_field f)
@@ -37,6 +38,8 @@ let c17_cmd cmd args =
   | "d", [x] -> Some (show_dec (bytes_of_field x))
   | "l", [a] -> Some (field_of_bytes (List.concat (lossy (bytes_of_field a))))
   | "u", [x] -> Some (match str_chars (bytes_of_field x) with Some _ -> "1" | None -> "0")
+  | "pqs", [a] -> let n = path_norm (bytes_of_field a) in let q = quote n in
+    Some (field_of_bytes n ^ " | " ^ field_of_bytes q ^ " | " ^ show_sres (split q))
   | "sp", [] -> Some (field_of_bytes sPECIAL_CHARS)
   | "b", [x] -> Some (match bash_words (bytes_of_field x) with
       | Some ws -> if ws = [] then "ok" else "ok " ^ fields ws
